@@ -260,6 +260,7 @@ PROPS["C20"] = {
               {"name": "trie", "pkg": "c20", "chk": "chk_c20_trie", "args": ["trie"]}],
     "reasons": {"gw": {"1": "a string was accepted as a route template although its text is not the rendering of the accepted structure, or it has illegal path characters / ill-formed field paths (it was turned into some other route)",
                        "2": "the rendering of a well-formed template was rejected or given another structure (verb, variables)",
+                       "3": "a generated template is outside the hypothesis of the round-trip theorem: generator and theorem no longer talk about the same language",
                        "4": "the parser panicked"},
                 "strict": {"1": "the strict parser accepted a string that is not in the grammar's language (or gave it a structure whose rendering is not the string)",
                            "2": "the strict parser rejected (or mis-structured) the rendering of a well-formed template",
@@ -267,7 +268,7 @@ PROPS["C20"] = {
                            "4": "the parser panicked"},
                 "trie": {"1": "the trie returned a template that does not match the looked-up path", "4": "the trie panicked"}},
     "rule": "grammar-directed generation: abstract templates derived from httprule.bnf (literals of every pchar class incl. percent escapes and colons, *, **, variables with 1-3 field path components and 1-3 inner segments, optional verbs, the root template), rendered with and without the {a} shorthand; two single-edit mutants of every rendering (insert / delete / replace / duplicate / drop the leading slash, from an alphabet of structural characters, NUL, space, non-ASCII, broken escapes); noise strings; the near misses named in the property verbatim. Each string goes to the routing parser (+ Compile + runtime.NewPattern), to the strict parser, and sets of parsed templates to the trie with paths built to match or nearly match them",
-    "level_text": "Coq theorems: the opcode machine of a compiled template computes the template's own matching (compile correctness), opcodes can be read back into the structure. The language itself is decided by executable definitions (well-formedness + rendering) that are checked against both parsers on every generated string in both directions; the round trip parse(render t) = t for ALL well-formed t is NOT proved (see DESIGN): level partial.",
+    "level_text": "Coq theorems: parse(render t) = Some t for ALL well-formed templates t of the routing parser's model (tokenizer with three states, verb extraction, recursive descent) - every derivable string is accepted with exactly the structure, field paths and verb it was written from; rendering is injective (the text determines the structure); compile correctness (the opcode machine computes the template's own matching); opcodes can be read back. The converse (accepted => rendering of the accepted structure) and the strict parser / trie are decided by the executable grammar on every generated string: that half is not a theorem.",
     "level_note": "Trusted: Coq kernel, extraction, modelrun, Go harness, the generator's coverage of the grammar. The routing-parser model (tokenizer, recursive descent) equals the code on every generated string (hundreds of thousands in the thorough tier).",
     "design_ref": "DESIGN.md §3 C20",
     "assumptions": ["LITERAL is read as one or more pchars for path segments (an empty segment is not a template), zero or more for the verb: '/a:' is '/a' with an empty verb, '/:v' the root with a verb",
